@@ -45,6 +45,26 @@ CLAIMED = {
    "deterministic simulation through the rng seam over an enumerated flavour set: concrete value vs all 28 generated pointer flavours + blanket dyn_* method for each of the five erasable traits, from forks of one owned stream; result, error chain, typed draw trace, next word and underlying call count compared",
    "The flavour set (7 pointers x 4 auto-trait combinations x 5 traits) is enumerated completely per scenario; wrapped implementations, arguments and streams are seeded.",
    "Trusted: Display + source() chain as 'the same error'; Debug text / pointer position as 'the same result'."),
+ "C07": ("rngsim", "exploration", "DESIGN §5 C07",
+   "deterministic simulation through the rng seam: exact invariants per seeded/adversarial run (maximality, k distinct entrants observed through a comparison-logging Ord) plus a seeded many-run statistical decision of the entrant-subset and winner-rank laws against exact probabilities",
+   "Exact clauses are decided on every run; the distributional clause is sampling evidence: every k-subset frequency vs 1/C(n,k) and every rank's winning frequency vs C(r-1,k-1)/C(n,k) for all n <= 6 (quick) / 7 (thorough), k <= n.",
+   "Trusted: the exact reference law computed in the check; statistical decisions use the Chernoff-KL rule with a total false-alarm budget of 1e-9 per invocation (fixed default seed => outcome is a fixed function of the code); biases below the resolution reported in the evidence are invisible."),
+ "C08": ("rngsim", "exploration", "DESIGN §5 C08",
+   "deterministic simulation through the rng seam: exact support clauses per seeded/adversarial run (winner survives some case order, never Pareto-dominated) plus seeded many-run statistical decision of every individual's selection frequency against the exact law obtained by enumerating all case orders",
+   "Exact law by enumeration of all c! orders on small tie-heavy matrices (most of them order-sensitive by construction); frequencies decided statistically; support violations exact.",
+   "Trusted: the exact reference law computed in the check; statistical decisions use the Chernoff-KL rule with a total false-alarm budget of 1e-9 per invocation (fixed default seed => outcome is a fixed function of the code); biases below the resolution reported in the evidence are invisible."),
+ "C12": ("rngsim", "exploration", "DESIGN §5 C12",
+   "seeded many-run statistical experiments through the rng seam: observed frequencies of flips, UMAD insertions/deletions (incl. the four child patterns of a one-gene parent), crossover origins, random bits and gene kinds compared with the configured probabilities by the Chernoff-KL rule",
+   "Purely distributional property => sampling evidence with an explicit, rigorous error budget; 135 configurations x 2*10^5 (quick) / 2*10^6 (thorough) trials.",
+   "Trusted: the exact reference law computed in the check; statistical decisions use the Chernoff-KL rule with a total false-alarm budget of 1e-9 per invocation (fixed default seed => outcome is a fixed function of the code); biases below the resolution reported in the evidence are invisible."),
+ "C13": ("rngsim", "exploration", "DESIGN §5 C13",
+   "deterministic simulation through the rng seam with marker member selectors: exact clauses per seeded/adversarial run (exactly one delegate, never a weight-0 member, zero-weight errors, build-time overflow with the right fields) plus seeded statistical decision of each member's use frequency against w_i/sum over tree shapes, with_item_and_weight chains and DynWeighted lists",
+   "Exact clauses decided on every run over arbitrary tree shapes whose inner nodes are the real WeightedPair; proportionality is sampling evidence.",
+   "Trusted: the exact reference law computed in the check; statistical decisions use the Chernoff-KL rule with a total false-alarm budget of 1e-9 per invocation (fixed default seed => outcome is a fixed function of the code); biases below the resolution reported in the evidence are invisible."),
+ "C18": ("rngsim", "exploration", "DESIGN §5 C18",
+   "deterministic simulation through the rng seam: logging probe element generators (exact counts and element provenance for Vec / Bitstring / Plushy / nested / individual / population generators), all 16 conversion flavours constructed from empty and non-empty sources under seeded/adversarial streams (membership by pointer identity or value), plus seeded statistical decision of uniformity per flavour and length",
+   "Exact clauses per run; uniformity is sampling evidence over 16 flavours x lengths 1..8.",
+   "Trusted: the exact reference law computed in the check; statistical decisions use the Chernoff-KL rule with a total false-alarm budget of 1e-9 per invocation (fixed default seed => outcome is a fixed function of the code); biases below the resolution reported in the evidence are invisible."),
 }
 
 NOT_APPLICABLE = {
@@ -58,7 +78,7 @@ PENDING_REASON = "check not built yet in this round (planned, see DESIGN §5); n
 ENGINES = [
  {"name": "simcore", "path": "sim/simcore", "serves_properties": sorted(CLAIMED), "kind_free_text": "seeded runner (one integer decides everything), SimRng owned random stream with boundary-word fault mode, minimiser, replay files, evidence writer, KL decision rule"},
  {"name": "vmsim", "path": "sim/checks/src/vmsim.rs", "serves_properties": ["C01", "C02", "C03"], "kind_free_text": "Push VM simulator: harness-stepped and real-loop execution of the real interpreter, resource-fault schedules, pushmodel reference interpreter (sim/checks/src/pushmodel.rs)"},
- {"name": "rngsim", "path": "sim/checks/src/bin", "serves_properties": ["C06", "C10", "C11", "C14", "C17"], "kind_free_text": "single calls / short histories of selectors, mutators, recombinators and generators driven by the owned SimRng stream with probe components; exact per-run oracles plus seeded statistical experiments"},
+ {"name": "rngsim", "path": "sim/checks/src/bin", "serves_properties": ["C06", "C07", "C08", "C10", "C11", "C12", "C13", "C14", "C17", "C18"], "kind_free_text": "single calls / short histories of selectors, mutators, recombinators and generators driven by the owned SimRng stream with probe components; exact per-run oracles plus seeded statistical experiments"},
  {"name": "ambient", "path": "sim/checks/src/bin/c16.rs", "serves_properties": ["C16"], "kind_free_text": "determinism sweep: forked streams, fresh threads, fresh processes, interleaved/concurrent histories, input-order permutations"},
  {"name": "stacksim", "path": "sim/checks/src/bin/c04.rs", "serves_properties": ["C04"], "kind_free_text": "operation-history simulator for Stack<T> against a Vec+capacity model"},
 ]
